@@ -922,7 +922,7 @@ def make_case(seed, idx, profile="core", times=24):
         else:
             g = Gen(r, dict(PROFILES[profile]))
         p = g.gen_prog()
-        if est_cost(p) <= MAX_COST:
+        if est_cost(p) <= MAX_COST and not (PROFILES[profile].get("avoid_g3", True) and stale_capture_risk(p)):
             break
     nin = len(p.dsp.params)
     inputs = []
@@ -1286,3 +1286,41 @@ def shadow_renames(p):
                 walk(ch)
         walk(f.body)
     return out
+
+
+
+def stale_capture_risk(p):
+    """class predicate of the listed finding G3 (root cause: `close_heap_closure` at the end of an inner block turns the
+    cell SHARED by all closures that captured a variable into a snapshot while the variable lives on in its frame; a later
+    write by the enclosing function — or through another closure — and a later read then see different storage):
+    some function has a lambda that is let-bound inside an `if` arm or a nested block (not on the function's top-level
+    statement chain) and mentions a variable that the function assigns somewhere."""
+    import re
+    word = re.compile(r"[A-Za-z_][A-Za-z0-9_]*")
+
+    def assigned(n, acc):
+        if isinstance(n, Node):
+            if n.kind in ("set", "setf"):
+                acc.add(n.a[0])
+            for _, ch in children(n):
+                assigned(ch, acc)
+        return acc
+
+    def walk(n, top, asg):
+        """top: n is on the top-level statement chain of its function (or lambda) body"""
+        if not isinstance(n, Node):
+            return False
+        if n.kind == "lam":
+            a2 = assigned(n.a[1], set()) | asg
+            return walk(n.a[1], True, a2)
+        if n.kind == "let" and isinstance(n.a[1], Node) and n.a[1].kind == "lam" and not top:
+            if set(word.findall(src(n.a[1]))) & asg:
+                return True
+        if n.kind in ("let", "lett", "letp", "letr", "letrp", "set", "setf"):
+            *heads, last = [ch for _, ch in children(n)]
+            return any(walk(h, False, asg) for h in heads) or walk(last, top, asg)
+        return any(walk(ch, False, asg) for _, ch in children(n))
+    for f in list(p.fns) + [p.dsp]:
+        if walk(f.body, True, assigned(f.body, set())):
+            return True
+    return False
